@@ -315,7 +315,7 @@ theorem IInv.apply {K IK : Bytes → Prop} (hK : WFKeys K) (mode : CacheKeying) 
           have : s.commit = s := by unfold IState.commit; rw [hm]
           rw [this]; exact same _ rfl rfl hi.pend
         | nil =>
-          have hce : s.commit = IState.mk s.st.commit (applyBatch s.idb (idxBatch s.idxOv (s.st.version + 1))) [] s.cache := by
+          have hce : s.commit = IState.mk s.st.commit (applyBatch s.idb (idxBatch s.idxOv (s.st.version + 1))) [] s.cache s.idxSort := by
             unfold IState.commit; rw [hm]
           rw [hce]
           have hv' : s.st.commit.version = s.st.version + 1 := by simp [State.commit, hm]
@@ -422,7 +422,7 @@ theorem iview_agree {IK : Bytes → Prop} (hIK : WFKeys IK) {a b : DB} {va vb v 
     rw [get_agree wa wb hv hag]
   have hiter : ∀ h, x.iter (txHeightKey h) = y.iter (txHeightKey h) := by
     intro h
-    simp only [IView.iter, x, y]
+    simp only [IView.iter, IView.dbIter, x, y]
     rw [iter_agree wa wb hv hag _ (ha.compatP (hpfx h)) (hb.compatP (hpfx h))]
   have htxs : ∀ h, x.txsByHeight h = y.txsByHeight h := by
     intro h
